@@ -92,6 +92,8 @@ def gen_history(rng, quick, mode=None):
             # the arguments change exactly ONE field of every prepared input (envars / files / return_files / one command);
             # usually against a fresh destination, so that the cached outputs of the other input are all that is left
             var = f"{rng.choice(['env', 'files', 'ret', 'cmd'])}{i}"
+            if var.startswith("ret"):
+                var = "ret0"        # the re-spelling of return_files is ONE alternative input: two such runs prepare the same input
             run["reset_dest"] = run.get("reset_dest") or rng.chance(3, 4)
         if var:
             run["var"] = var
